@@ -83,7 +83,7 @@ def main():
     if all_checks and not args:
         with open(rp, "w") as fh:
             json.dump(rows, fh, indent=1)
-    elif all_checks and "--merge" in sys.argv and os.path.exists(rp):
+    elif "--merge" in sys.argv and os.path.exists(rp):
         # refresh only the rows of the seeds given on the command line
         old = {r["seed"]: r for r in json.load(open(rp))}
         old.update({r["seed"]: r for r in rows})
